@@ -275,11 +275,14 @@ class SimBackend(object):
             # listed property covers (DESIGN.md 2.3, recorded assumption).
             r = random.Random(self.cfg['value_noise'] + self.round)
             projset = set(C.proj)
+            # a solver's round-off is usually one-sided within a solve
+            ones = [[0.9999999], [1.0000001],
+                    [1.0, 0.9999999, 1.0000001, 0.99999999]][
+                self.cfg['value_noise'] % 3]
             for i, v in enumerate(C.vs):
                 if i in projset and C.lo[i] == 0 and C.hi[i] == 1:
                     if point[i] == 1:
-                        vals[v.name] = r.choice([1.0, 0.9999999, 1.0000001,
-                                                 0.99999999])
+                        vals[v.name] = r.choice(ones)
                     else:
                         vals[v.name] = r.choice([0.0, -0.0])
             # the variable being optimised may also come back a hair off, on
